@@ -738,8 +738,9 @@ func runOneConnAccept(w *bufio.Writer, r *u.Rng, idx int, dist map[string]int) {
 type caTimerCase struct {
 	hsIdle    time.Duration
 	keepAlive time.Duration
-	pktAt     []time.Duration // virtual times at which a genuine server Initial (PING) arrives
+	pktAt     []time.Duration // virtual times at which a genuine peer Initial (PING) arrives
 	version   uint32
+	server    bool // the connection under test is a server connection (run() is shared, perspective differs)
 }
 
 func runOneTimer(w *bufio.Writer, tc caTimerCase, r *u.Rng) {
@@ -747,7 +748,12 @@ func runOneTimer(w *bufio.Writer, tc caTimerCase, r *u.Rng) {
 	var fails []monFail
 	var term, detail string
 	body := func() {
-		ca, err := quic.VerifNewCA(quic.VerifCAOpts{DCID: O, SCID: C, Version: quic.Version(tc.version), Versions: []quic.Version{quic.Version(tc.version)}, HandshakeIdle: tc.hsIdle, KeepAlive: tc.keepAlive})
+		opts := quic.VerifCAOpts{DCID: O, SCID: C, Version: quic.Version(tc.version), Versions: []quic.Version{quic.Version(tc.version)}, HandshakeIdle: tc.hsIdle, KeepAlive: tc.keepAlive}
+		if tc.server {
+			srvTLS, _, _ := simTLS()
+			opts.Server, opts.TLS, opts.SCID, opts.PeerSCID = true, srvTLS, S, C
+		}
+		ca, err := quic.VerifNewCA(opts)
 		if err != nil {
 			fails = append(fails, monFail{"connaccept/construct", err.Error()})
 			return
@@ -768,6 +774,9 @@ func runOneTimer(w *bufio.Writer, tc caTimerCase, r *u.Rng) {
 			i := i
 			time.AfterFunc(at, func() {
 				d, err := quic.VerifLongPacket(0, quic.Version(tc.version), C, S, nil, O, false, int64(i), quic.VerifFramePing())
+				if tc.server {
+					d, err = quic.VerifLongPacket(0, quic.Version(tc.version), S, C, nil, O, true, int64(i), quic.VerifFramePing())
+				}
 				if err == nil {
 					ca.Enqueue(d)
 				}
@@ -809,7 +818,7 @@ func runOneTimer(w *bufio.Writer, tc caTimerCase, r *u.Rng) {
 		if x := idleStart + int64(tc.hsIdle); x < dl {
 			dl, wantKind = x, "TIdleTimeout"
 		}
-		detail = fmt.Sprintf("idle=%v keepalive=%v pkts=%v v=%x: closed at %v with %v; creation=%d lastRcv=%d firstAE=%d", tc.hsIdle, tc.keepAlive, tc.pktAt, tc.version, res.at, res.err, rel(t.Creation), rel(t.LastRcv), rel(t.FirstAckElicitingAfterIdle))
+		detail = fmt.Sprintf("server=%v idle=%v keepalive=%v pkts=%v v=%x: closed at %v with %v; creation=%d lastRcv=%d firstAE=%d", tc.server, tc.hsIdle, tc.keepAlive, tc.pktAt, tc.version, res.at, res.err, rel(t.Creation), rel(t.LastRcv), rel(t.FirstAckElicitingAfterIdle))
 		if kind == "TContinue" {
 			fails = append(fails, monFail{"connaccept/deadline-error", fmt.Sprintf("run() ended with %v instead of a handshake/idle timeout", res.err)})
 		} else if closeAt != dl {
@@ -883,7 +892,7 @@ func runConnAccept(w *bufio.Writer, seed uint64, n int, args []string) {
 		if only >= 0 {
 			break
 		}
-		tc := caTimerCase{hsIdle: time.Duration(cr.Pick(300, 1000, 2000, 5000, 7000)) * time.Millisecond, version: []uint32{caV1, caV2}[cr.Intn(2)]}
+		tc := caTimerCase{hsIdle: time.Duration(cr.Pick(300, 1000, 2000, 5000, 7000)) * time.Millisecond, version: []uint32{caV1, caV2}[cr.Intn(2)], server: i%3 == 2}
 		if cr.Chance(1, 3) {
 			tc.keepAlive = time.Duration(cr.Pick(100, 1000, 3000)) * time.Millisecond
 		}
@@ -896,6 +905,9 @@ func runConnAccept(w *bufio.Writer, seed uint64, n int, args []string) {
 		}
 		runOneTimer(w, tc, cr)
 		dist[fmt.Sprintf("timer/pkts=%d", len(tc.pktAt))]++
+		if tc.server {
+			dist["timer/server"]++
+		}
 	}
 	for k, v := range dist {
 		fmt.Fprintf(w, "DIST\t%s\t%d\n", k, v)
